@@ -242,7 +242,60 @@ def h11_rabbit_foreign(S):
             info=f"foreign message ({state}) ended in {out['where']}, unacknowledged: {out['unacked']}; task errors: {out['errors']}")
 
 
+def h11_redis_window(S):
+    """Redis: foreign messages filling one or more fetch windows in front of an own job do not hide it."""
+    from repid import Job, Router, Worker
+    from repid.converter import BasicConverter
+
+    window = 2
+    n_foreign = [1, 2, 3, 4, 5][S.pick("foreign_messages_in_front", 5)]
+    delayed = S.flag("all_carry_a_past_due_time")          # the same through the due-delayed set
+    ran = []
+    out = {}
+
+    async def main(loop):
+        w = World(backend="redis")
+        await w.open(queues=("shared",), record=False)
+        cls = w.broker.CONSUMER_CLASS
+        saved = cls.PREFETCH_AMOUNT
+        cls.PREFETCH_AMOUNT = window
+        try:
+            ra = Router()
+
+            @ra.actor(name="ping", queue="shared", converter=BasicConverter)
+            async def a_ping(i: int):
+                ran.append(i)
+
+            import repid.data._parameters as P
+            from repid.data._key import RoutingKey
+            from engine.vtime import real_timedelta
+            for i in range(n_foreign + 1):
+                own = i == n_foreign
+                now = P.datetime.now()
+                params = P.Parameters(timestamp=now, delay=P.DelayProperties(next_execution_time=now - real_timedelta(seconds=5 - i)) if delayed else P.DelayProperties())
+                await w.broker.enqueue(RoutingKey(topic="ping" if own else "report", queue="shared", id_=f"m{i}"), '{"i": %d}' % i, params)
+            wa = Worker(routers=[ra], handle_signals=[], _connection=w.conn, graceful_shutdown_time=1.0, tasks_limit=2, messages_limit=1)
+            try:
+                await asyncio.wait_for(wa.run(), timeout=5)
+                out["returned"] = True
+            except asyncio.TimeoutError:
+                out["returned"] = False
+        finally:
+            cls.PREFETCH_AMOUNT = saved
+
+    from engine.vtime import PinnedClock
+    from harness.common import T0
+    run_async(main)
+    S.cover("window-checked")
+    S.check("own-job-is-not-blocked-by-foreign-messages", ran == [n_foreign] and out["returned"],
+            info=f"{n_foreign} foreign message(s) in front (fetch window {window}): service A executed {ran}")
+
+
 HARNESSES = [
+    Harness(name="H11-redis-window", scenario=h11_redis_window, workers=8,
+            bounds={"fetch window": "2 names per round trip (PREFETCH_AMOUNT set by the harness; the code is window-size generic)",
+                    "foreign messages in front of the own job": "1..5 (less than, exactly, and more than whole windows)", "category": "normal list or due-delayed set"},
+            functions=["connections/redis/consumer.py:_RedisConsumer.__fetch_message_name"], covers=["window-checked"], stubs=["fake Redis server"]),
     Harness(name="H11-rabbit-foreign", scenario=h11_rabbit_foreign,
             bounds={"foreign message": "live, expired (ttl run out), or carrying parameters in a format only its own service reads", "worker": "serves another topic of the shared queue"},
             functions=["connections/rabbitmq/consumer.py:_RabbitConsumer.on_new_message"], covers=["foreign-live", "foreign-expired", "foreign-foreign-parameters-format"],
